@@ -1,7 +1,7 @@
 import logging
 from warnings import warn
 
-from z3 import Optimize, Or, Solver, is_true, unsat, z3
+from z3 import Optimize, Or, Solver, is_true, sat, unsat, z3
 
 from inference.conditional import Conditional
 from inference.conditional_z3 import Conditional_z3
@@ -214,6 +214,10 @@ class LexInfZ3(Inference):
             check = opt.check()
             if check == unsat:
                 return xi_i_set
+            if check != sat:
+                # the optimizer gave up (solver timeout / resource limit): there is no
+                # (optimal) model to read, report it like an expired deadline
+                raise TimeoutError
             m = opt.model()
             xi_i: frozenset[Conditional_z3] = frozenset(
                 [c for c in part if is_true(m.eval(c.make_A_then_not_B()))]
